@@ -825,7 +825,7 @@ fn gen_zoned(c: &mut Ctx, d: Option<&DForm>) -> DateTime<FixedOffset> {
 fn run_family(c: &mut Ctx) {
     let dfs = date_forms();
     let tfs = time_forms();
-    let k = c.n(1, 8);
+    let k = c.n(2, 12);
     let dtseps = [" ", "T", "  ", ", ", "_", " at "];
     c.count_n("family:date-forms", dfs.len() as u64);
     c.count_n("family:time-forms", tfs.len() as u64);
